@@ -95,7 +95,7 @@ def value_key(v, scope, problems=None):
     raise ReaderError("unsupported JSON value %r" % (v,))
 
 
-def read_container(obj, scope, problems):
+def read_container(obj, scope, problems, order=None):
     recs = collections.Counter()
     for key, block in obj.items():
         if key in ("prefix", "bundle"):
@@ -136,7 +136,11 @@ def read_container(obj, scope, problems):
                             problems.append("empty value array for %s" % an)
                         for v in vals:
                             pairs.append((auri, value_key(v, scope, problems)))
-                recs[mk_key(kind, ident, pairs)] += 1
+                key = mk_key(kind, ident, pairs)
+                recs[key] += 1
+                if order is not None and kind == "Membership":
+                    # document order of the listed members (a Counter key cannot carry it); used for the documented normalisation
+                    order.setdefault(key, []).append([v[1] for a, v in pairs if a == PROV + "entity"])
     return recs
 
 
@@ -148,9 +152,9 @@ def read(text):
         raise ReaderError("not JSON: %s" % e)
     if not isinstance(top, dict):
         raise ReaderError("top level is not an object")
-    problems, notes = [], {"ambiguous_bundle_ids": []}
+    problems, notes = [], {"ambiguous_bundle_ids": [], "membership_order": {}}
     dscope = Scope(top.get("prefix"))
-    snap = {None: read_container(top, dscope, problems)}
+    snap = {None: read_container(top, dscope, problems, notes["membership_order"].setdefault(None, {}))}
     bundles = top.get("bundle", {})
     if not isinstance(bundles, dict):
         raise ReaderError("'bundle' must be an object")
@@ -176,6 +180,6 @@ def read(text):
         uri = in_b or in_d
         if uri in snap:
             raise ReaderError("two bundles denote <%s>" % uri)
-        snap[uri] = read_container(bobj, bscope, problems)
+        snap[uri] = read_container(bobj, bscope, problems, notes["membership_order"].setdefault(uri, {}))
     notes["structural_problems"] = problems
     return snap, notes
